@@ -40,6 +40,11 @@ pub struct FdCase {
     /// MsgHdrBorrow lives in a Box (true) or on the stack (false)
     pub boxed: bool,
     pub data_len: u8,
+    /// the message is built with `MsgHdr::update_control` over a caller-supplied control area of
+    /// exactly CMSG_SPACE bytes that ends at a guard page (and handed to sendmsg(2) as it is),
+    /// instead of `MsgHdrBorrow::create_send`
+    #[serde(default)]
+    pub raw_send: bool,
 }
 
 pub fn cmsg_space(data: usize) -> usize {
@@ -200,10 +205,30 @@ fn body(c: &FdCase, stage_fd: i32) -> Outcome {
     let fds: Vec<Fd> = sent.iter().map(|f| Fd::try_new(f.fd()).unwrap()).collect();
     let io_out = [IoSlice::new(&data)];
     let ctrl = if c.nfds > 0 || c.empty_rights { Some(ControlMessageSend::ScmRights(&fds)) } else { None };
-    let sent_n = catch(|| {
-        let snd = MsgHdrBorrow::create_send(None, &io_out, ctrl);
-        rusl::network::sendmsg(Fd::try_new(a.fd()).unwrap(), &snd, 0)
-    });
+    let sent_n = if c.raw_send {
+        let spc = c.space().max(8);
+        let area = Guarded::at_end(spc);
+        let area_ptr: *mut u8 = unsafe { area.as_ptr().add(area.len() - spc) };
+        let mut iov = libc::iovec { iov_base: data.as_ptr() as *mut libc::c_void, iov_len: data.len() };
+        let r = catch(|| {
+            let mut hdr = rusl::platform::MsgHdr { msg_name: core::ptr::null(), msg_namelen: 0, msg_iov: (&mut iov as *mut libc::iovec).cast(), msg_iovlen: 1, msg_control: core::ptr::null_mut(), msg_controllen: 0, msg_flags: 0 };
+            unsafe { hdr.update_control(ctrl, area_ptr) };
+            // same layout as struct msghdr: handed to the kernel as it stands
+            let n = unsafe { libc::sendmsg(a.fd(), (&hdr as *const rusl::platform::MsgHdr).cast(), 0) };
+            if n < 0 {
+                Err(rusl::Error { msg: "sendmsg(2)", code: Some(rusl::error::Errno::new(errno())) })
+            } else {
+                Ok(n as usize)
+            }
+        });
+        drop(area);
+        r
+    } else {
+        catch(|| {
+            let snd = MsgHdrBorrow::create_send(None, &io_out, ctrl);
+            rusl::network::sendmsg(Fd::try_new(a.fd()).unwrap(), &snd, 0)
+        })
+    };
     match sent_n {
         Err((loc, msg)) => {
             o.fail_sig = Some(format!("sendmsg|panic|{loc}"));
@@ -554,6 +579,7 @@ pub fn run_fdpass(c: &FdCase) -> CaseResult {
     rep.class_if(outcome.ctrunc && outcome.delivered > 0, "truncated-some-delivered");
     rep.class_if(c.nfds == 0, "no-descriptors");
     rep.class_if(c.nfds == 32, "32-descriptors");
+    rep.class_if(c.raw_send, "sent-through-MsgHdr-update_control");
     rep.class_if(c.fill == 2, "stale-message-in-buffer");
     rep.class_if(outcome.delivered > 0, "descriptors-delivered");
     // non-trivial: a control buffer that is not the comfortable zeroed oversize one of the tests
@@ -572,5 +598,5 @@ pub fn fd_strategy() -> impl Strategy<Value = FdCase> {
         1 => Just(-4000i16),
         1 => prop::sample::select(vec![-4i16, -8, -12, -16, -20, -24]),
     ];
-    (nfds, any::<bool>(), rel, any::<bool>(), 0u8..4, any::<bool>(), 1u8..=64).prop_map(|(nfds, empty_rights, rel, no_buffer, fill, boxed, data_len)| FdCase { nfds, empty_rights, rel, no_buffer, fill, boxed, data_len })
+    (nfds, any::<bool>(), rel, any::<bool>(), 0u8..4, any::<bool>(), 1u8..=64, prop::bool::weighted(0.25)).prop_map(|(nfds, empty_rights, rel, no_buffer, fill, boxed, data_len, raw_send)| FdCase { nfds, empty_rights, rel, no_buffer, fill, boxed, data_len, raw_send })
 }
